@@ -220,6 +220,13 @@ func (a *Agent) Status() *model.Status {
 		// Match the status to the execution graph.
 		schedulerStatus = scheduler.StatusRunning
 	}
+	if schedulerStatus == scheduler.StatusSuccess &&
+		a.graph.IsStarted() && !a.graph.IsFinished() {
+		// Between two steps no node is running for a moment; the run is
+		// not successful before it has finished (a status recorded at that
+		// moment must not read "finished" if the process dies afterwards).
+		schedulerStatus = scheduler.StatusRunning
+	}
 
 	// Create the status object to record the current status.
 	status := &model.Status{
